@@ -573,3 +573,161 @@ def build_trl(rng, sid, typ, nf=2, gfrac=0.6, swap=False):
                         [em.measure([[0, lt[f]], [lt[f], 0]], f) for f in range(nf)])
     sc.meta.update({"type": typ, "family": "trl", "order": "".join(items)})
     return sc
+
+
+# ----------------------------------------------------------------------------- directed scenarios
+def _embed(n, ports, small, rng):
+    """full n x n truth of a standard that occupies `ports` (1-based); the other ports see
+    arbitrary constant terminations without coupling"""
+    s = [[0j] * n for _ in range(n)]
+    for i in range(n):
+        s[i][i] = crand(rng, 0.1, 0.6)
+    for a, pa in enumerate(ports):
+        for b, pb in enumerate(ports):
+            s[pa - 1][pb - 1] = small[a][b]
+    return s
+
+
+def build_partial_s_unknown(rng, sid, typ="T8", n=2, nf=1, merror=None):
+    """Candidate D19: single-reflect standards (incomplete S matrix) together with an unknown
+    parameter on the Levenberg-Marquardt path."""
+    freqs = default_freqs(nf)
+    em = ErrorModel(rng, typ, n, nf)
+    sc = Scenario(sid, typ, n, freqs)
+    sc.em = em
+    t = [[0, 1], [1, 0]]
+    sc.add_through(1, 2, [em.measure(_embed(n, (1, 2), t, rng), f) for f in range(nf)])
+    for port in range(1, n + 1):
+        for g, nm in ((-1.0, "short"), (1.0, "open"), (0.0, "match")):
+            full = _embed(n, (port,), [[g]], rng)
+            sc.add_single(nm, port, [em.measure(full, f) for f in range(nf)])
+    for port in range(1, n + 1):
+        truth = [crand(rng, 0.4, 0.9)] * nf
+        u = sc.unknown(truth, perturb(rng, truth, 0.05))
+        full = _embed(n, (port,), [[truth[0]]], rng)
+        sc.add_single(u, port, [em.measure(full, f) for f in range(nf)])
+    for port in range(1, n + 1):
+        g = crand(rng, 0.5, 0.9)
+        full = _embed(n, (port,), [[g]], rng)
+        sc.add_single(sc.known([g] * nf), port, [em.measure(full, f) for f in range(nf)])
+    if merror:
+        sc.cmd(merror)
+    sc.meta.update({"family": "partial_s_unknown", "type": typ})
+    return sc
+
+
+def build_trl_like_single(rng, sid, typ="T8"):
+    """three standards, two unknowns, 2x2, one of them a single reflect: the TRL classifier
+    looks at the S cells of a standard whose off-diagonal cells are absent"""
+    nf, n = 1, 2
+    em = ErrorModel(rng, typ, n, nf)
+    sc = Scenario(sid, typ, n, default_freqs(nf))
+    sc.em = em
+    t = [[0, 1], [1, 0]]
+    sc.add_through(1, 2, [em.measure(t, 0)])
+    r1 = [crand(rng, 0.5, 0.9)]
+    u1 = sc.unknown(r1, perturb(rng, r1, 0.05))
+    sc.add_single(u1, 1, [em.measure(_embed(n, (1,), [[r1[0]]], rng), 0)])
+    r2 = [crand(rng, 0.5, 0.9)]
+    u2 = sc.unknown(r2, perturb(rng, r2, 0.05))
+    sc.add_double(u2, u2, 1, 2, [em.measure([[r2[0], 0], [0, r2[0]]], 0)])
+    sc.meta.update({"family": "trl_like_single", "type": typ})
+    return sc
+
+
+def build_correlated_exact(rng, sid, typ="T8", n=1, nf=1, merror="merror 1 - 1e-3 -"):
+    """Candidate D38: measurement-error modelling on, every system exactly determined, the only
+    unknowns are correlated parameters (equations + correlated = error terms + unknowns)."""
+    em = ErrorModel(rng, typ, n, nf)
+    sc = Scenario(sid, typ, n, default_freqs(nf))
+    sc.em = em
+    per = unknowns_per_system(typ, n)
+    assert n == 1
+    vals = [-0.95, 0.9, 0.05j]
+    for k in range(per):
+        truth = [vals[k]] * nf
+        if k == per - 1:
+            base = sc.known_vec(truth)
+            nm = sc.correlated(base, 0.05, truth)
+        else:
+            nm = sc.known(truth)
+        sc.add_single(nm, 1, [em.measure([[truth[0]]], f) for f in range(nf)])
+    if merror:
+        sc.cmd(merror)
+    sc.meta.update({"family": "correlated_exact", "type": typ})
+    return sc
+
+
+# ----------------------------------------------------------------------------- evaluation helpers
+def param_error(sc, res):
+    """max |solved - truth| over the unknown parameters and frequencies (None when not available)"""
+    worst = 0.0
+    for nm, tr in sc.truth.items():
+        got = res["params"].get(nm)
+        if not got:
+            return None
+        worst = max(worst, max_err(got[0], tr))
+    return worst
+
+
+def dut_error(sc, res, k=0):
+    if len(res["S"]) <= k or not res["S"][k]:
+        return None
+    worst = 0.0
+    for f in range(sc.nf):
+        flat = [x for row in sc.dut[f] for x in row]
+        if f not in res["S"][k]:
+            return None
+        worst = max(worst, max_err(res["S"][k][f], flat))
+    return worst
+
+
+def build_wb(ctx):
+    h = os.path.join(vplib.VERIF, "harness")
+    return ctx.build_harness("selfcal_wb", san=True,
+                             extra=[os.path.join(h, "selfcal_wb_simple.c"), os.path.join(h, "selfcal_wb_auto.c")],
+                             exclude=("vnacal_new_solve_simple.c", "vnacal_new_solve_auto.c"))
+
+
+def parse_wb(out):
+    """white-box lines -> list of solve_auto runs (one per frequency): each a list of iterations
+    {"sum_k","best_sum_k","best","mult","lambda","sum_d","sum_dx","converged"}; plus weights dumps"""
+    runs, cur, it = [], None, None
+    weights = []
+    eqm = []
+    mats = []
+    for line in out.splitlines():
+        if not line.startswith("wb "):
+            continue
+        p = line.split()
+        if p[1] == "weights":
+            weights.append({"findex": int(p[2].split("=")[1]), "w": [float(x) for x in p[4:]]})
+            eqm.append({})
+        elif p[1] == "eqm":
+            vals = [float(x) for x in p[4:]]
+            eqm[-1][int(p[3].split("=")[1])] = [complex(vals[i], vals[i + 1]) for i in range(0, len(vals), 2)]
+        elif p[1] in ("A", "b"):
+            vals = [float(x) for x in p[4:]]
+            mats.append((p[1], int(p[2]), int(p[3]),
+                         [complex(vals[i], vals[i + 1]) for i in range(0, len(vals), 2)]))
+        elif p[1] == "qr":
+            it = {"best": False, "reject": False, "converged": False, "steps": 0}
+            if cur is None:
+                cur = []
+                runs.append(cur)
+            cur.append(it)
+        elif p[1] == "mldivide" and it is not None:
+            it["steps"] += 1
+        elif p[1] == "qrsolve":
+            mats.append(("qrsolve", int(p[2]), int(p[3]), None))
+        elif p[1] == "ev" and it is not None:
+            if p[2] in ("best", "reject"):
+                it[p[2]] = True
+            elif p[2] == "converged":
+                it["converged"] = True
+                cur = None
+            else:
+                it[p[2]] = float(p[3])
+        elif p[1] == "endsolve":
+            cur = None
+    return runs, weights, eqm, mats
